@@ -310,7 +310,7 @@ func colScenario(r *vk.Run, kind string, withInit bool, steps []step, bp bool, u
 		if !t.Done() {
 			r.Violation("C09/writer-blocked/"+kind+"/"+mode, fmt.Sprintf("write #%d of [%s] has not returned at the quiescent point after it although the subscription is lossy\n%s", i, desc, vk.DescribeGs(vk.LibraryGoroutines(vk.Goroutines(), nil))), replay)
 			c.grant(100)
-			t.Wait()
+			taskSettles(t) // after a reported violation the writer may never return: do not wait for it
 			return
 		}
 		if s.Permit > 0 {
@@ -450,7 +450,10 @@ func cancelDuringSeed(r *vk.Run) {
 						if !t.Done() {
 							r.Violation("C09/writer-blocked/"+kind+"/"+mode+"/cancelled-during-seed", fmt.Sprintf("[%s]: write #%d has not returned at the quiescent point after it although the only subscriber was cancelled\n%s", desc, i, vk.DescribeGs(vk.LibraryGoroutines(vk.Goroutines(), nil))), map[string]any{"kind": kind, "bp": bp, "items": items, "taken": taken})
 							c.grant(100)
-							t.Wait()
+							if !taskSettles(t) {
+								c.stop()
+								return // the writer stays blocked: the rest of this phase would only wait for it
+							}
 							break
 						}
 					}
@@ -533,7 +536,9 @@ func mixedSubscribers(r *vk.Run) {
 			if !t.Done() {
 				r.Violation("C09/writer-blocked/pull/mixed-subscribers", fmt.Sprintf("write #%d of [%s] has not returned at the quiescent point after it: the only idle subscriber is lossy\n%s", j, strings.Join(steps, " "), vk.DescribeGs(vk.LibraryGoroutines(vk.Goroutines(), nil))), map[string]any{"case": i})
 				idle.grant(1 << 20)
-				t.Wait()
+				if !taskSettles(t) {
+					return // the writer stays blocked: the rest of this phase would only wait for it
+				}
 				blocked = true
 			}
 		}
@@ -626,7 +631,9 @@ func mixedValueSubscribers(r *vk.Run) {
 			if !t.Done() {
 				r.Violation("C09/writer-blocked/value/mixed-subscribers", fmt.Sprintf("Set #%d has not returned at the quiescent point after it: the only idle subscriber is lossy\n%s", j, vk.DescribeGs(vk.LibraryGoroutines(vk.Goroutines(), nil))), map[string]any{"case": i})
 				idle.grant(1 << 20)
-				t.Wait()
+				if !taskSettles(t) {
+					return // the writer stays blocked: the rest of this phase would only wait for it
+				}
 				blocked = true
 			}
 		}
@@ -784,7 +791,9 @@ func manyIds(r *vk.Run) {
 		if !t.Done() {
 			r.Violation("C09/writer-blocked/pull/lossy/many-ids", fmt.Sprintf("an idle lossy subscriber and %d Adds of different ids: the writer has not returned at the quiescent point (%d items stored)\n%s", n, len(col.List()), vk.DescribeGs(vk.LibraryGoroutines(gs, nil))), map[string]any{"ids": n})
 			c.grant(1 << 20)
-			t.Wait()
+			if !taskSettles(t) {
+				return
+			}
 			c.stop()
 			continue
 		}
@@ -1122,6 +1131,14 @@ func lateSubscriber(r *vk.Run) {
 	r.Require("late-subscriber-scenarios", 2)
 }
 
+// taskSettles is used after a violation "the writer has not returned" was reported and the consumer was told to
+// receive everything: it reports whether the writer has returned at the next quiescent point. It never blocks on
+// the task itself (under some breakages the writer never returns).
+func taskSettles(t *vk.Task) bool {
+	vk.Quiesce()
+	return t.Done()
+}
+
 func touchesA(steps []step) bool {
 	for _, s := range steps {
 		if s.ID == "a" {
@@ -1204,7 +1221,7 @@ func valueScenario(r *vk.Run, withInit bool, n, pat int) {
 		if !t.Done() {
 			r.Violation("C09/writer-blocked/value/lossy", fmt.Sprintf("[%s]: Set #%d has not returned at the quiescent point after it\n%s", desc, i, vk.DescribeGs(vk.LibraryGoroutines(vk.Goroutines(), nil))), replay)
 			c.grant(100)
-			t.Wait()
+			taskSettles(t) // after a reported violation the writer may never return: do not wait for it
 			return
 		}
 		if (pat>>i)&1 == 1 {
